@@ -221,13 +221,21 @@ def run_pinned(prop_id, known):
 # ---------------------------------------------------------------------------
 # the check driver
 
-def write_replay(prop_id, seed, shard, fail, cfg):
+def write_replay(prop_id, seed, shard, fail, cfg, use_narrow=True):
     d = os.path.join(VERIF, "replays")
     os.makedirs(d, exist_ok=True)
     path = os.path.join(d, f"{prop_id}-{seed}-{shard}.json")
+    spec = fail["spec"]
+    viols = []
+    for v in fail["violations"]:
+        v = dict(v)
+        nar = v.pop("narrow", None)
+        if use_narrow and nar is not None and spec is fail["spec"]:
+            spec = nar          # a spec that holds just the failing fault set
+        viols.append(v)
     with open(path, "w") as f:
         json.dump({"property": prop_id, "seed": seed, "shard": shard, "swarm": cfg,
-                   "violations": fail["violations"], "spec": fail["spec"]}, f, indent=1, sort_keys=True)
+                   "violations": viols, "spec": spec}, f, indent=1, sort_keys=True)
     return path
 
 
@@ -241,7 +249,7 @@ def replay_file(path, quiet=False):
     new = [v for v in viols if not match_known(known, prop_id, v)]
     for v in viols:
         tagk = match_known(known, prop_id, v)
-        print(("KNOWN " if tagk else "NEW   ") + json.dumps(v, sort_keys=True))
+        print(("KNOWN " if tagk else "NEW   ") + json.dumps({k: x for k, x in v.items() if k != "narrow"}, sort_keys=True))
     print("REPLAY-CLAUSES " + json.dumps(sorted(v["clause"] for v in new)))
     print("REPLAY-TRACE " + ctx.last_trace)
     if new:
@@ -367,11 +375,14 @@ def run_check(prop_id, tier, seed=None, workers=None, shards=None, examples=None
             path = write_replay(prop_id, seed, s, r["violation"], r["cfg"])
             clauses = [v["clause"] for v in r["violation"]["violations"]]
             ok, txt = confirm_in_fresh_interpreter(path, clauses)
+            if not ok and any("narrow" in v for v in r["violation"]["violations"]):
+                path = write_replay(prop_id, seed, s, r["violation"], r["cfg"], use_narrow=False)
+                ok, txt = confirm_in_fresh_interpreter(path, clauses)
             if ok:
                 if len(violations) < 5:
                     print(f"VIOLATION property={prop_id} replay={path}", flush=True)
                     for v in r["violation"]["violations"][:3]:
-                        print("  " + json.dumps(v, sort_keys=True)[:600])
+                        print("  " + json.dumps({k: x for k, x in v.items() if k != "narrow"}, sort_keys=True)[:600])
                 violations.append(path)
             else:
                 harness_errors.append(f"shard {s}: violation did not replay in a fresh interpreter ({path}):\n{txt}")
